@@ -58,7 +58,10 @@ void check_entry(Parser const &parser, Skipper const &skipper, node const *const
   auto const r{p::detail::consume_remaining(
       fcppt::make_ref(h.get()), p::phrase_parse_stream(parser, h.get(), skipper))};
 
-  refctx c{g, c12::ms.text, n, 0, rec{}, 0};
+  long code[c12::max_text];
+  for (unsigned i = 0; i < c12::max_text; ++i)
+    code[i] = static_cast<long>(c12::ms.text[i]);
+  refctx c{g, code, n, 0, rec{}, 0, 0xff};
   c.out.n = 0;
   c.out.overflow = false;
   refres e = run_skip(c, skiproot);
